@@ -7,6 +7,7 @@ import (
 	"fmt"
 	"hash/fnv"
 	"io"
+	"runtime"
 
 	kafka "github.com/segmentio/kafka-go"
 	"github.com/segmentio/kafka-go/compress"
@@ -103,7 +104,8 @@ func (t *balancerTarget) teardown() {}
 var codecMethods = []string{"Encode", "Decode", "RoundTrip", "EncodeLarge", "OpenClose"}
 
 // CodecNames are the codec values selected by Program.Variant.
-var CodecNames = []string{"gzip", "snappy", "snappy-unframed", "lz4", "zstd", "gzip-level1", "zstd-level1"}
+var CodecNames = []string{"gzip", "snappy", "snappy-unframed", "lz4", "zstd", "gzip-level1", "zstd-level1",
+	"gzip-shared", "snappy-shared", "lz4-shared", "zstd-shared"} // -shared: the package-level values Conn / Writer / Client use
 
 type codecTarget struct {
 	p    *Program
@@ -128,6 +130,14 @@ func newCodec(v int) (string, compress.Codec) {
 		return name, &zstd.Codec{}
 	case "gzip-level1":
 		return name, &gzip.Codec{Level: 1}
+	case "gzip-shared":
+		return name, compress.Gzip.Codec()
+	case "snappy-shared":
+		return name, compress.Snappy.Codec()
+	case "lz4-shared":
+		return name, compress.Lz4.Codec()
+	case "zstd-shared":
+		return name, compress.Zstd.Codec()
 	}
 	return name, &zstd.Codec{Level: 1}
 }
@@ -172,7 +182,7 @@ func init() {
 	register("codec", codecMethods, func(p *Program) (target, error) {
 		t := &codecTarget{p: p}
 		t.name, t.c = newCodec(p.Variant)
-		t.data = payload(p.Variant, 3000)
+		t.data = payload(p.Variant, 1200)
 		enc, err := encode(t.c, t.data)
 		if err != nil {
 			return nil, err
@@ -184,13 +194,32 @@ func init() {
 
 func (t *codecTarget) prepare(round int) error { return nil }
 
+// codecIters short uses per call: the pooled readers / writers of the codec value travel between the goroutines
+// (runtime.Gosched between the uses lets the other threads run on this P; it is a scheduling hint, not a synchronisation).
+const codecIters = 10
+
 func (t *codecTarget) call(th, k int, m string) error {
+	var first error
+	n := codecIters
+	if m == "EncodeLarge" {
+		n = 1
+	}
+	for i := 0; i < n; i++ {
+		if err := t.once(k*codecIters+i, m); err != nil && first == nil {
+			first = err
+		}
+		runtime.Gosched()
+	}
+	return first
+}
+
+func (t *codecTarget) once(k int, m string) error {
 	switch m {
 	case "Encode":
-		_, err := encode(t.c, payload(k, 500+k%700))
+		_, err := encode(t.c, payload(k, 200+k%300))
 		return err
 	case "EncodeLarge":
-		_, err := encode(t.c, payload(k, 150000))
+		_, err := encode(t.c, payload(k, 60000))
 		return err
 	case "Decode":
 		out, err := decode(t.c, t.enc)
@@ -199,7 +228,7 @@ func (t *codecTarget) call(th, k int, m string) error {
 		}
 		return err
 	case "RoundTrip":
-		data := payload(k, 2000+k%5000)
+		data := payload(k, 500+k%1500)
 		enc, err := encode(t.c, data)
 		if err != nil {
 			return err
@@ -209,11 +238,16 @@ func (t *codecTarget) call(th, k int, m string) error {
 			err = fmt.Errorf("%s: round trip differs", t.name)
 		}
 		return err
-	case "OpenClose": // take a writer and a reader from the pools and give them back unused
-		var buf bytes.Buffer
-		w := t.c.NewWriter(&buf)
+	case "OpenClose": // two writers and a reader taken from the pools at once and given back
+		var b1, b2 bytes.Buffer
+		w1 := t.c.NewWriter(&b1)
+		w2 := t.c.NewWriter(&b2)
 		r := t.c.NewReader(bytes.NewReader(t.enc))
-		err := w.Close()
+		w1.Write([]byte("a"))
+		err := w1.Close()
+		if cerr := w2.Close(); err == nil {
+			err = cerr
+		}
 		if cerr := r.Close(); err == nil {
 			err = cerr
 		}
